@@ -307,17 +307,18 @@ func opDec(kind string, extra int, foreign, data []byte) string {
 		}
 		// C05/C04 oracle: the same bytes in a buffer with cap == len
 		t2, err2 := decodeWith(lt, exact(data))
-		if ref := t2.render(err2); ref != reply {
+		ref := t2.render(err2)
+		if ref != reply {
 			lib.Finding("C05", "lppp:cap-dependent", kind+": decode depends on spare capacity / foreign bytes: "+reply+" vs "+ref)
 		}
 		// C05 oracle (no hidden state): decode the previous input of this case, then this one again
 		if prev, ok := prevInput[kind]; ok {
 			decodeWith(lt, exact(prev))
 			t3, err3 := decodeWith(lt, exact(data))
-			if again := t3.render(err3); again != reply {
-				lib.Finding("C05", "lppp:stale:history", kind+": the same bytes decode differently after another packet was decoded: "+reply+" vs "+again)
+			if again := t3.render(err3); again != ref {
+				lib.Finding("C05", "lppp:stale:history", kind+": the same bytes decode differently after another packet was decoded: "+ref+" vs "+again)
 			}
-			if t3.added != nil && t3.added == t.added {
+			if t3.added != nil && (t3.added == t.added || t3.added == t2.added) {
 				lib.Finding("C05", "lppp:stale:object", kind+": two decoder calls returned the same layer object")
 			}
 			lib.Stat(kind + ":dec:after-other")
